@@ -1278,7 +1278,6 @@ package mcp
 //@   track ss.onClose as hook
 //@   callee ss.onClose: modifies *
 //@   callee ss.keepaliveCancel: modifies extern
-//@   requires ss != nil && ss.conn != nil
 //@   modifies *
 //@   ensures @connection-closed-once-per-call calls(closeConn) == 1
 //@   ensures @hook-at-most-once-per-call calls(hook) <= 1 && (calls(hook) == 1 ==> calls(claim) == 1 && callResult(claim, 1, 0))
